@@ -103,7 +103,10 @@ LINEBREAKISH = ["\x0b", "\x0c", "\x1c", "\x1d", "\x1e", "\x85", "\u2028", "\u202
 ODD_CHARS = ["\x00", "\x1a", "\x7f", "\ufeff", "\u200b", "\xa0", "\x1f", "\x08"]
 TERMINATORS = ["\n", "\r\n", "\r"]
 READER_VIAS = ["list", "iter", "path", "gz"]
-CONSUME_STYLES = ["for", "next", "iter"]
+CONSUME_STYLES = ["for", "next", "iter", "method", "iter-method"]
+UNCHECKED_STYLES = ("next", "method")      # taken from the reader itself: the declared order is not enforced
+STYLE_TEXT = {"for": "a for loop", "iter": "iter(reader) and next() on it", "next": "next(reader)", "method": "reader.next()",
+              "iter-method": "iter(reader) and .next() on it"}
 
 
 def inject_chars(rng, lines, chars, n=None):
@@ -204,18 +207,20 @@ def open_by(via, req, tmp):
 
 def consume(reader, style, each):
     """Consumes the reader to the end in one of CONSUME_STYLES, calling each(record): "for" = a for loop over the reader,
-    "iter" = explicit iter(reader) then next() on it, "next" = next(reader) on the reader itself."""
+    "iter" = explicit iter(reader) then next() on it, "next" = next(reader) on the reader itself, "method" / "iter-method" =
+    the .next() method of the reader / of iter(reader)."""
     if style == "for":
         for rec in reader:
             each(rec)
-    else:
-        it = iter(reader) if style == "iter" else reader
-        while True:
-            try:
-                rec = next(it)
-            except StopIteration:
-                break
-            each(rec)
+        return
+    it = iter(reader) if style in ("iter", "iter-method") else reader
+    step = it.next if style in ("method", "iter-method") else (lambda: next(it))
+    while True:
+        try:
+            rec = step()
+        except StopIteration:
+            break
+        each(rec)
 
 
 def reader_open(req):
